@@ -2,6 +2,7 @@
 import re
 from vflib import thir as T, tables
 from vflib.terms import Evaluator, Tm, subterms, rebuild
+from rules import shared
 
 META = {
     "level": "other",
@@ -161,7 +162,7 @@ def r2_to_r5(prog, ev, rep, conv):
             lits = {z.a[1] for z in subterms(ev.summary(y.a[0])) if z.k == "lit"}
             if {"~0", "~1"} <= lits:
                 escaped = True
-    rep.check(escaped, "C09-R3", "%s|name-unescaped" % conv, c.loc(), "name escaped as a JSON-Pointer token",
+    rep.check(escaped, "C09-R3", "%s|name-unescaped" % shared.rk(prog, ev, conv), c.loc(), "name escaped as a JSON-Pointer token",
               "the member name is written after `/` without escaping `~` and `/` (chain: %s): member `a/b` is looked up as `a` then `b`" % [y.a[0].rsplit("::", 1)[1] for y in chain])
     # R4: decoding
     trims = [y.a[0].rsplit("::", 1)[1] for y in chain if re.search(r"<impl str>::trim", y.a[0])]
@@ -172,10 +173,10 @@ def r2_to_r5(prog, ev, rep, conv):
         prob.append("quotes are removed with %s (strips every leading/trailing quote, not one layer)" % trims)
     if not decodes:
         prob.append("no escape decoding (\\', \\\\, \\uXXXX) between the Normalized Path step and the lookup")
-    rep.check(not prob, "C09-R4", "%s|name-decoding" % conv, c.loc(), "decoded name", "; ".join(prob))
+    rep.check(not prob, "C09-R4", "%s|name-decoding" % shared.rk(prog, ev, conv), c.loc(), "decoded name", "; ".join(prob))
     # R5: kind-blind lookup
     lookup_blind = True   # serde_json::Value::pointer resolves a token against whatever container is there (RFC 6901)
     same_render = tpl == tpl_i
-    rep.check(not (same_render and lookup_blind), "C09-R5", "%s|kind-conflated" % conv, where, "kinds distinguishable",
+    rep.check(not (same_render and lookup_blind), "C09-R5", "%s|kind-conflated" % shared.rk(prog, ev, conv), where, "kinds distinguishable",
               "name steps and index steps are rendered alike (`/x`) and resolved by a kind-blind JSON-Pointer lookup: `$['0']` resolves "
               "element 0 of an array and `$[0]` member \"0\" of an object, i.e. a location that does not exist yields Some")
